@@ -417,7 +417,38 @@ def sp_maze_of(interp, st, args, kwargs, node):
     return Rec("LatticeMaze", {"connection_list": args[0]})
 
 
+def sp_psum(interp, st, args, kwargs, node):
+    """psum(xs, n) = xs[0] + ... + xs[n-1] for a list of ints (the function sum()/accumulate are specified with)"""
+    xs, n = args
+    if isinstance(xs, SymList):
+        arr = xs.arrs[0]
+    elif isinstance(xs, Grid) and xs.rank == 1:
+        arr = xs.arr
+    else:
+        raise Outside("psum of non-list", node)
+    for ax in M.psum_axioms(arr):
+        st.assume(ax)
+    return M.sumfn()(arr, to_z3(as_int(n)))
+
+
+def sp_psum_monotone(interp, st, args, kwargs, node):
+    """LEMMA (induction on b-a): prefix sums of non-negative numbers are non-negative and nondecreasing."""
+    LEMMAS_USED.add("psum_monotone: prefix sums of non-negative ints are nondecreasing (simple induction)")
+    xs = args[0]
+    arr = xs.arrs[0] if isinstance(xs, SymList) else xs.arr
+    for ax in M.psum_axioms(arr):
+        st.assume(ax)
+    f = M.sumfn()
+    k, a, b = z3.Int(V.fresh_name("k")), z3.Int(V.fresh_name("a")), z3.Int(V.fresh_name("b"))
+    n = to_z3(xs.length if isinstance(xs, SymList) else xs.dims[0])
+    nonneg = z3.ForAll([k], z3.Implies(z3.And(k >= 0, k < n), z3.Select(arr, k) >= 0))
+    mono = z3.ForAll([a, b], z3.Implies(z3.And(0 <= a, a <= b, b <= n), f(arr, a) <= f(arr, b)), patterns=[z3.MultiPattern(f(arr, a), f(arr, b))])
+    return z3.Implies(nonneg, mono)
+
+
 SPEC_FUNCTIONS = {
+    "psum_monotone": sp_psum_monotone,
+    "psum": sp_psum,
     "maze_of": sp_maze_of,
     "all_cands": sp_all_cands,
     "distinct_rows": sp_distinct_rows,
